@@ -27,7 +27,18 @@ import (
 // and Clean, or while enqueue finds the queue full. The model daemon answers
 // at once. Oracle = clause 1 and clause 3 of C05 at quiescence.
 func TestLockLevel(t *testing.T) {
-	if ev.ChildUnit() != "" {
+	switch ev.ChildUnit() {
+	case "":
+		// explored in a child process with a time limit, so that a hung bubble
+		// ends as a broken check instead of hanging the whole run
+		per := 4 * time.Minute
+		if ev.Thorough() {
+			per = 45 * time.Minute
+		}
+		R.RunChildren("TestLockLevel", []string{"locklevel"}, 1, per)
+		return
+	case "locklevel":
+	default:
 		t.Skip()
 	}
 	type instr struct {
